@@ -57,3 +57,14 @@ Theorem C10_view :
     In (k, oid) (n_opts n) -> nth_error store oid = Some os -> In (k, os) (view_of n store).
 Proof. exact view_of_lookup. Qed.
 Print Assumptions C10_view.
+
+(* Inheritance as the definition API builds it (copyOptionsFromParent): after the parent's table is
+   copied into a child, every parent key resolves in the child to the parent's option object, so
+   the child's view shows the value parsed into that object (C10_view). *)
+From GO Require Import Model.Build Proofs.Env.
+Theorem C10_inherited_keys :
+  forall (parent : list (str * nat)) child k oid,
+    NoDup (keys parent) -> In (k, oid) parent ->
+    alookup k (List.fold_left (fun acc kv => aset (fst kv) (snd kv) acc) parent child) = Some oid.
+Proof. exact copy_table_lookup. Qed.
+Print Assumptions C10_inherited_keys.
